@@ -57,7 +57,7 @@ def run(ck):
     # end to end: real frontend + backend, producer parked in the interposed retry sleep
     import sysfam
     rule = ck.rule
-    sysfam.run_family(ck, "C09", 40 if ck.tier == "quick" else 800)
+    sysfam.run_family(ck, "C09", 120 if ck.tier == "quick" else 1500)
     ck.rule = rule + "; end to end: " + sysfam.RULES["C09"]
 
 
